@@ -8,11 +8,9 @@ Import ListNotations.
    interpreter, both SDKs) every index satisfies IInv:
      refs = { primary key -> index key } over exactly the stored items that have the index's key attributes,
      sortedKeys = the sorted multiset of those index keys (so count() is the number of such items).
-   Side condition EX: UpdateTable/AddIndex never re-declare an attribute with a different type
-   (UAny: no condition on UpdateItem). *)
+   No side condition: UpdateTable / AddIndex can not re-type a key attribute (Table.CheckAttributeDefinition, fix c854008). *)
 Theorem C03_index_invariant_reachable :
   forall lm lu sdk ops cn tn c t,
-    run_env EX UAny lm lu sdk [] ops ->
     lookup cn (fst (run lm lu sdk [] ops)) = Some c -> lookup tn (c_tables c) = Some t -> XInv t.
 Proof. exact XInv_reachable. Qed.
 
